@@ -22,7 +22,7 @@ RULE = (
     "parallel runs."
 )
 ASSUMPTIONS = ["worker processes are created by fork, so the patched module attributes and the subclass are inherited"]
-MIN_NONTRIVIAL = {"quick": 40, "thorough": 300}
+MIN_NONTRIVIAL = {"quick": 25, "thorough": 300}
 SHARD_TIMEOUT = {"quick": 1500, "thorough": 7200}
 
 PAD = {"x86": ["vaddpd %%xmm%d, %%xmm%d, %%xmm%d" % (i % 14 + 1, i % 14 + 1, 15) for i in range(20)],
@@ -181,8 +181,8 @@ def real_cases(draw, kernels, archs):
 
 
 def plan(tier, seed):
-    n_syn = {"quick": 8, "thorough": 250}[tier]
-    n_real = {"quick": 2, "thorough": 40}[tier]
+    n_syn = {"quick": 14, "thorough": 250}[tier]
+    n_real = {"quick": 3, "thorough": 40}[tier]
     shards = []
     for i in range(10):
         shards.append({"kind": "syn", "isa": "x86" if i % 2 == 0 else "aarch64", "seed": seed * 1000 + 1600 + i,
